@@ -1,15 +1,23 @@
-# FMTPGP — format module: OpenPGP packet framing written by relic's inline signer (lib/pgptools/inline.go serializeHeader /
-# serializeLiteral).  Serves C01 C03 C05 through body(ctx); run(ctx) is the standalone entry (bin/check FMTPGP).
-# The oracle is an RFC 4880 (4.2.2 / 5.9) packet reader written here; it never looks at the model.
-import hashlib, json
-from vlib.common import Hex
+# FMTPGP — format module: what relic itself contributes to OpenPGP artefacts.
+#  (1) the packet framing of the inline signer (lib/pgptools/inline.go serializeHeader / serializeLiteral);
+#  (2) the cleartext signature path (lib/pgptools/clearsign.go ClearSign / DetachClearSign / tailClearSign / MergeClearSign /
+#      headClearSign): how the encoder's stream is split into lines and put together again.
+# Serves C01 C03 C05 (and C11: no hang) through body(ctx); run(ctx) is the standalone entry (bin/check FMTPGP).
+# The oracles are written here from RFC 4880 (4.2.2 / 5.9 packet reader; 5.2.4 / 6.2 / 7 / 7.1 cleartext framework, text
+# canonicalisation, v4 signature hashing, PKCS#1 v1.5 RSA check); they never look at the model.  gpgv is a second, external opinion.
+import base64, hashlib, json, os, re, shutil, subprocess
+from vlib.common import Hex, REPO
 
 ASPECT_THEOREMS = {
-    "C01": ["pgp_len_roundtrip", "pgp_tag_roundtrip"],
-    "C03": ["pgp_literal_roundtrip"],
-    "C05": ["pgp_len_roundtrip", "pgp_tag_roundtrip", "pgp_literal_roundtrip"],
+    "C01": ["pgp_len_roundtrip", "pgp_tag_roundtrip", "pgp_cs_sign_then_verify", "pgp_cs_roundtrip", "pgp_cs_refuses_long_line", "pgp_cs_signs_short_lines"],
+    "C03": ["pgp_literal_roundtrip", "pgp_cs_text_preserved"],
+    "C05": ["pgp_len_roundtrip", "pgp_tag_roundtrip", "pgp_literal_roundtrip", "pgp_cs_hashed_eq_spec", "pgp_cs_body_eq_spec", "pgp_cs_roundtrip", "pgp_cs_sign_then_verify"],
+    "C11": ["pgp_cs_no_hang", "pgp_cs_refuses_long_line"],
     "C02": [], "C08": [],
 }
+
+SCAN_LIMIT = 65536      # bufio.MaxScanTokenSize: relic refuses (explicit error) documents with an emitted line of this many bytes or more
+GPG_LINE_LIMIT = 19900  # GnuPG cannot read cleartext lines of about 20000 characters (its own limit; such files are judged by the reference only)
 
 
 def splitmix(seed, n):
@@ -41,29 +49,413 @@ def rfc_new_len(b):
     return ("definite", int.from_bytes(b[1:5], "big"), 5)
 
 
+# ------------------------------------------------------------------ RFC 4880 reference for cleartext signatures (model-free)
+def dearmor(data):
+    """6.2: (type, header lines, binary)"""
+    lines = [l.rstrip(b" \t\r") for l in data.split(b"\n")]
+    i = 0
+    while i < len(lines) and not lines[i].startswith(b"-----BEGIN "):
+        i += 1
+    if i == len(lines):
+        raise ValueError("no armor header line")
+    typ = lines[i][11:-5]
+    i += 1
+    hdrs = []
+    while i < len(lines) and lines[i] != b"":
+        hdrs.append(lines[i])
+        i += 1
+    i += 1
+    b64 = b""
+    while i < len(lines) and not lines[i].startswith(b"=") and not lines[i].startswith(b"-----END "):
+        b64 += lines[i]
+        i += 1
+    if i >= len(lines):
+        raise ValueError("armor tail line missing")
+    return typ, hdrs, base64.b64decode(b64, validate=True)
+
+
+def packets(b):
+    """4.2: (tag, body) of each packet; definite lengths only"""
+    i = 0
+    while i < len(b):
+        t = b[i]
+        i += 1
+        if not t & 0x80:
+            raise ValueError("bad packet tag octet")
+        if t & 0x40:
+            tag = t & 0x3f
+            d = rfc_new_len(b[i:i + 5])
+            if not d or d[0] != "definite":
+                raise ValueError("partial or truncated length")
+            n = d[1]
+            i += d[2]
+        else:
+            tag, lt = (t >> 2) & 0xf, t & 3
+            if lt == 3:
+                raise ValueError("indeterminate length")
+            k = 1 << lt
+            n = int.from_bytes(b[i:i + k], "big")
+            i += k
+        yield tag, b[i:i + n]
+        i += n
+
+
+def mpi(b, i):
+    k = (int.from_bytes(b[i:i + 2], "big") + 7) // 8
+    return int.from_bytes(b[i + 2:i + 2 + k], "big"), i + 2 + k
+
+
+def rsa_pubkeys(keybin):
+    out = []
+    for tag, body in packets(keybin):
+        if tag in (6, 14) and body[0] == 4 and body[5] in (1, 3):
+            n, i = mpi(body, 6)
+            e, i = mpi(body, i)
+            out.append((n, e))
+    return out
+
+
+HASHES = {8: ("SHA256", hashlib.sha256, "3031300d060960864801650304020105000420"),
+          9: ("SHA384", hashlib.sha384, "3041300d060960864801650304020205000430"),
+          10: ("SHA512", hashlib.sha512, "3051300d060960864801650304020305000440"),
+          2: ("SHA1", hashlib.sha1, "3021300906052b0e03021a05000414")}
+
+
+def verify_text_sig(sigbin, text, keys):
+    """5.2.4: a v4 signature over `text` (already canonical); RSA PKCS#1 v1.5. returns (ok, info dict)"""
+    for tag, body in packets(sigbin):
+        if tag != 2:
+            continue
+        if body[0] != 4:
+            return False, {"why": "signature version %d" % body[0]}
+        sigtype, pkalg, halg = body[1], body[2], body[3]
+        hl = int.from_bytes(body[4:6], "big")
+        hashed = body[:6 + hl]
+        i = 6 + hl
+        i += 2 + int.from_bytes(body[i:i + 2], "big")
+        left16 = body[i:i + 2]
+        i += 2
+        if halg not in HASHES:
+            return False, {"why": "hash algorithm %d" % halg}
+        name, hf, prefix = HASHES[halg]
+        prefix = bytes.fromhex(prefix)
+        h = hf(text + hashed + b"\x04\xff" + len(hashed).to_bytes(4, "big")).digest()
+        info = {"sigtype": sigtype, "hash": name, "pkalg": pkalg}
+        if h[:2] != left16:
+            return False, dict(info, why="the digest of the canonical text does not match the signature (left 16 bits differ)")
+        if pkalg not in (1, 3):
+            return False, dict(info, why="not an RSA signature")
+        s, _ = mpi(body, i)
+        for n, e in keys:
+            k = (n.bit_length() + 7) // 8
+            want = b"\x00\x01" + b"\xff" * (k - 3 - len(prefix) - len(h)) + b"\x00" + prefix + h
+            if pow(s, e, n).to_bytes(k, "big") == want:
+                return True, info
+        return False, dict(info, why="RSA verification failure")
+    return False, {"why": "no signature packet"}
+
+
+BLANK = b" \t\r"
+
+
+def doc_lines(doc):
+    ls = doc.split(b"\n")
+    if ls[-1] == b"":
+        ls.pop()
+    return ls
+
+
+def canon_text(doc):
+    """5.2.4 + 7.1: lines end at LF; trailing blanks (and the CR of a CR LF ending) removed; joined with CR LF; no final line ending"""
+    return b"\r\n".join(l.rstrip(BLANK) for l in doc_lines(doc))
+
+
+def emitted_line_lengths(doc):
+    """length of every line of the dash-escaped cleartext any RFC 4880 7.1 writer emits for doc"""
+    out = []
+    for l in doc_lines(doc):
+        l = l.rstrip(BLANK)
+        out.append(len(l) + (2 if l[:1] == b"-" else 0))
+    return out
+
+
+def read_cleartext(msg):
+    """7: (hash names, canonical text, armored signature bytes, cleartext lines)"""
+    ls = msg.split(b"\n")
+    if ls[0].rstrip(BLANK) != b"-----BEGIN PGP SIGNED MESSAGE-----":
+        raise ValueError("missing cleartext header line")
+    i = 1
+    hashes = []
+    while i < len(ls) and ls[i].rstrip(BLANK) != b"":
+        m = re.match(rb"^Hash: *(.*)$", ls[i].rstrip(BLANK))
+        if not m:
+            raise ValueError("armor header other than Hash: %r" % ls[i][:40])
+        hashes += [x.strip().decode("latin1") for x in m.group(1).split(b",")]
+        i += 1
+    if i >= len(ls):
+        raise ValueError("no empty line after the armor headers")
+    i += 1
+    body = []
+    while i < len(ls) and ls[i].rstrip(BLANK) != b"-----BEGIN PGP SIGNATURE-----":
+        l = ls[i]
+        if l[:2] == b"- ":
+            l = l[2:]
+        body.append(l.rstrip(BLANK))
+        i += 1
+    if i >= len(ls):
+        raise ValueError("signature armor not found")
+    return hashes, b"\r\n".join(body), b"\n".join(ls[i:]), body
+
+
+def first_diff(a, b):
+    n = min(len(a), len(b))
+    for i in range(n):
+        if a[i] != b[i]:
+            return i
+    return n
+
+
+class Gpgv:
+    """capability-probed gpgv with a keyring made from the armored public key (dearmored here)"""
+
+    def __init__(self, scratch, keybin):
+        self.exe = shutil.which("gpgv")
+        self.home = os.path.join(scratch, "gpgv-home")
+        if self.exe:
+            os.makedirs(self.home, exist_ok=True)
+            os.chmod(self.home, 0o700)
+            self.keyring = os.path.join(self.home, "keyring.gpg")
+            open(self.keyring, "wb").write(keybin)
+
+    def verify(self, path):
+        p = subprocess.run([self.exe, "--homedir", self.home, "--keyring", self.keyring, "--status-fd", "1", path],
+                           stdout=subprocess.PIPE, stderr=subprocess.PIPE, timeout=60)
+        st = p.stdout.decode(errors="replace")
+        return p.returncode == 0 and "GOODSIG" in st and "VALIDSIG" in st, (st + p.stderr.decode(errors="replace"))[-400:]
+
+
+def err_class(s):
+    if not s:
+        return 0
+    if "token too long" in s:
+        return 2
+    if "signature block not found" in s:
+        return 3
+    return 9
+
+
+# ------------------------------------------------------------------ cleartext signatures: oracle + correspondence
+def clearsign_part(ctx, st, res, viol, replay_obj=None):
+    keydir = os.path.join(REPO, "functest", "testkeys")
+    keybin = dearmor(open(os.path.join(keydir, "rsa2048.pgp"), "rb").read())[2]
+    keys = rsa_pubkeys(keybin)
+    args = ["fmtpgp-cs", keydir]
+    if replay_obj is not None:
+        p = os.path.join(ctx.scratch, "replay.doc")
+        open(p, "wb").write(bytes.fromhex(replay_obj["doc_hex"]))
+        args += ["replay", replay_obj.get("hash", "SHA256"), p]
+    rc, out, err = ctx.drv(args, timeout=600)
+    if rc != 0:
+        viol("C05", "driver-crash", "cleartext driver failed: " + err[-400:], {"stderr": err[-2000:]}, False)
+        return
+    recs = [json.loads(l) for l in out.splitlines() if l.strip()]
+    CS = [r for r in recs if r["kind"] == "cs"]
+    HK = [r for r in recs if r["kind"] == "hook"]
+    gpgv = Gpgv(ctx.scratch, keybin)
+    cov = {"documents": len(CS), "raw_streams": len(HK), "signed": 0, "refused_over_limit": 0, "reference_verified": 0, "gpgv_good": 0,
+           "gpgv_skipped_line_limit": 0, "gpgv_skipped_nul_line": 0, "lib_verified": 0, "max_line": 0}
+    if not gpgv.exe:
+        res["notes"].append("gpgv not installed: cleartext signatures judged by the RFC 4880 reference computation only")
+    distinct = res["_distinct"]
+
+    def rep(r, doc, **kw):
+        o = {"cases": [{k: v for k, v in r.items() if k not in ("sig",)}], "hash": r["hash"], "doc_len": len(doc),
+             "how": "bin/check FMTPGP --replay <this file> signs doc_hex again with the real DetachClearSign + MergeClearSign and judges the result"}
+        o["doc_hex"] = doc.hex()
+        o.update(kw)
+        return o
+    for r in CS:
+        res["evaluations"] += 1
+        doc = open(r["doc"], "rb").read()
+        lens = emitted_line_lengths(doc)
+        maxline = max(lens) if lens else 0
+        cov["max_line"] = max(cov["max_line"], maxline)
+        shape = (min(maxline, 70001) if maxline >= 4000 else maxline // 500, doc[-1:] == b"\n", b"\r\n" in doc, any(l[:1] == b"-" for l in doc_lines(doc)), r["hash"])
+        distinct.add(("cs",) + shape)
+        what = "%s (%d bytes, longest emitted line %d, %s)" % (r["name"], len(doc), maxline, r["hash"])
+        if r.get("hang"):
+            key = "clearsign-long-line-hang" if maxline >= SCAN_LIMIT else "clearsign-hang"
+            viol("C01+C05+C11", key, "%s did not return within the wall-clock limit on document %s: no error, no output" % (r["hang"], what), rep(r, doc))
+            continue
+        e = r.get("detach_err") or r.get("merge_err") or r.get("stream_err")
+        if not r.get("detach_err") and not r.get("stream_err") and not bytes.fromhex(r.get("sig") or "").startswith(b"-----BEGIN PGP SIGNATURE-----"):
+            viol("C01+C05", "clearsign-no-signature-block", "DetachClearSign reports success for %s but returns %d bytes that are not an armored signature (the client then fails with: %s)"
+                 % (what, len(r.get("sig") or "") // 2, r.get("merge_err")), rep(r, doc))
+            continue
+        if e:
+            if maxline >= SCAN_LIMIT and err_class(e) == 2:
+                cov["refused_over_limit"] += 1      # explicit refusal of a line the reader cannot hold: allowed
+            else:
+                viol("C01", "clearsign-refused", "relic refuses to clear-sign the well-formed document %s: %s" % (what, e), rep(r, doc))
+            continue
+        cov["signed"] += 1
+        art = open(r["out"], "rb").read()
+        want = canon_text(doc)
+        try:
+            hashes, text, sigarm, lines = read_cleartext(art)
+            sigbin = dearmor(sigarm)[2]
+        except Exception as ex:
+            viol("C01+C03+C05", "clearsign-unreadable", "the cleartext message relic wrote for %s does not parse per RFC 4880 section 7: %s" % (what, ex), rep(r, doc))
+            continue
+        ok, info = verify_text_sig(sigbin, text, keys)
+        if text != want:
+            k = first_diff(text, want)
+            nl, nw = len(lines), len(doc_lines(doc))
+            viol("C01+C03+C05", "clearsign-text-changed",
+                 "the cleartext relic emitted for %s is not the document: an RFC 4880 7.1 reader recovers %d lines / %d bytes, the canonical document has %d lines / %d bytes (first difference at byte %d); signature over the emitted text: %s"
+                 % (what, nl, len(text), nw, len(want), k, "verifies" if ok else "BAD (%s)" % info.get("why")), rep(r, doc, emitted_text_lines=nl, document_lines=nw))
+            continue
+        if not ok:
+            viol("C01+C05", "clearsign-bad-signature", "the signature in relic's cleartext message for %s does not verify over the RFC 4880 canonical text: %s" % (what, info.get("why")), rep(r, doc))
+            continue
+        cov["reference_verified"] += 1
+        if info["sigtype"] != 1:
+            viol("C05", "clearsign-sig-class", "cleartext signature for %s has signature type 0x%02x, RFC 4880 7 requires 0x01" % (what, info["sigtype"]), rep(r, doc))
+        if hashes != [info["hash"]] or info["hash"] != r["hash"]:
+            viol("C01+C05", "clearsign-hash-header", "Hash header %s / signature digest %s / requested %s for %s" % (hashes, info["hash"], r["hash"], what), rep(r, doc))
+        if r.get("lib_verify") == "ok":
+            cov["lib_verified"] += 1
+        else:
+            viol("C01", "clearsign-lib-verify", "go-crypto's cleartext reader rejects relic's output for %s: %s" % (what, r.get("lib_verify")), rep(r, doc))
+        if gpgv.exe:
+            if maxline >= GPG_LINE_LIMIT:
+                cov["gpgv_skipped_line_limit"] += 1
+            elif any(l[:1] == b"\0" for l in doc_lines(doc)):
+                cov["gpgv_skipped_nul_line"] += 1     # gpg treats a line that starts with NUL as empty (C string); not text
+            else:
+                good, txt = gpgv.verify(r["out"])
+                if good:
+                    cov["gpgv_good"] += 1
+                else:
+                    viol("C05", "clearsign-gpgv-rejects", "gpgv rejects relic's cleartext signature for %s: %s" % (what, txt[-200:].replace("\n", " | ")), rep(r, doc))
+    for r in HK:
+        res["evaluations"] += 1
+        distinct.add(("hook", r["name"]))
+        if r.get("hang"):
+            viol("C11", "clearsign-reader-hang", "%s did not return on raw stream %s" % (r["hang"], r["name"]), {"cases": [r], "stream_hex": open(r["stream"], "rb").read().hex()})
+    # ---------------- correspondence with the Coq model
+    mism, predicted = [], []
+    if st["model_ok"]:
+        fake = b"-----BEGIN PGP SIGNATURE-----\n\nZmFrZSBzaWduYXR1cmUgaGVyZQ==\n=AAAA\n-----END PGP SIGNATURE-----"
+        vals, idx = [], []
+        for r in CS:
+            if r.get("hang") or not r.get("stream"):
+                continue
+            doc = open(r["doc"], "rb").read()
+            stream = open(r["stream"], "rb").read()
+            k = stream.find(b"\n-----BEGIN PGP SIGNATURE-----\n")
+            if k < 0 or stream[-2:] != b"\r\n":
+                mism.append(("cs-stream-shape", r["name"], "the stream of pgptools.ClearSign has no signature armor at a line start / no final CR LF"))
+                continue
+            armor = stream[k + 1:-2]
+            sig = bytes.fromhex(r["sig"]) if r.get("sig") else b"-----BEGIN PGP SIGNATURE-----\r\n\r\nAAAA\r\n-----END PGP SIGNATURE-----\r\n"
+            vals.append([2, r["hash"].encode(), doc, armor, fake, sig])
+            idx.append((r, doc, stream, sig))
+        hvals = [[3, open(r["stream"], "rb").read()] for r in HK if not r.get("hang")]
+        try:
+            outv = run_model_big(ctx, vals + hvals)
+        except RuntimeError as e:
+            viol("C05", "model-eval", str(e)[-300:], {"output": str(e)}, False)
+            outv = []
+        for (r, doc, stream, sig), m in zip(idx, outv[:len(idx)]):
+            mstream, dst, dout, mst, mout, hashed, canon_eq, read_ok = m
+            name = r["name"]
+            if bytes.fromhex(mstream) != stream:
+                mism.append(("cs-stream", name, "encoder stream differs at byte %d" % first_diff(bytes.fromhex(mstream), stream)))
+            if dst != err_class(r.get("detach_err")) or (dst == 0 and dout != (r.get("sig") or "")):
+                mism.append(("cs-detach", name, "model status %d, real %r" % (dst, r.get("detach_err") or "ok")))
+            if bytes.fromhex(r.get("sig") or "").startswith(b"-----BEGIN PGP SIGNATURE-----"):   # (configFromSig is not modelled: merge is compared for armored blocks only)
+                real = open(r["out"], "rb").read() if r.get("out") else None
+                if mst != err_class(r.get("merge_err")) or (mst == 0 and bytes.fromhex(mout) != real):
+                    mism.append(("cs-merge", name, "model status %d, real %r%s" % (mst, r.get("merge_err") or "ok",
+                                                                                  "" if real is None or mst != 0 else ", outputs differ at byte %d" % first_diff(bytes.fromhex(mout), real))))
+                # the model's hashed text is what the library signed: the real signature verifies over it
+                try:
+                    okh, _ = verify_text_sig(dearmor(sig)[2], bytes.fromhex(hashed), keys)
+                except Exception:
+                    okh = False
+                if not okh:
+                    mism.append(("cs-hashed", name, "the real signature does not verify over the model's hashed text"))
+                if mst == 0 and not read_ok:
+                    predicted.append(name)      # the MODEL of the current code says: an RFC reader does not get (Hash header, canonical text, signature lines) back
+            if not canon_eq:
+                predicted.append(name)
+        for r, m in zip([r for r in HK if not r.get("hang")], outv[len(idx):]):
+            hs, ho, ts, to = m
+            rh, rt = open(r["head_out"], "rb").read(), open(r["tail_out"], "rb").read()
+            if hs != err_class(r.get("head_err")) or bytes.fromhex(ho) != rh:
+                mism.append(("hook-head", r["name"], "model status %d / %d bytes, real %r / %d bytes" % (hs, len(ho) // 2, r.get("head_err") or "ok", len(rh))))
+            if ts != err_class(r.get("tail_err")) or (ts == 0 and bytes.fromhex(to) != rt):
+                mism.append(("hook-tail", r["name"], "model status %d / %d bytes, real %r / %d bytes" % (ts, len(to) // 2, r.get("tail_err") or "ok", len(rt))))
+        if mism:
+            viol("C05", "clearsign-correspondence", "cleartext model and implementation disagree on %d observation(s) (first: %s)" % (len(mism), " / ".join(str(x) for x in mism[0])),
+                 {"mismatches": [list(m) for m in mism[:20]], "by_kind": {k: sum(1 for m in mism if m[0] == k) for k in set(m[0] for m in mism)},
+                  "broken": "correspondence FmtPGP.Run (kinds 2, 3)"}, False)
+    res["cs_mismatches"] = len(mism)
+    cov["model_predicts_violation_on"] = predicted[:10]
+    res["cs_coverage"] = cov
+    if CS:
+        res["samples"].append({k: CS[min(30, len(CS) - 1)].get(k) for k in ("name", "hash", "doc_len", "out_len", "detach_ms", "merge_ms", "lib_verify")})
+
+
+def run_model_big(ctx, vals):
+    """ctx.run_model with a larger stack for the extracted OCaml (recursion depth = document length, up to 150 000)"""
+    import resource
+    soft, hard = resource.getrlimit(resource.RLIMIT_STACK)
+    want = 1 << 30
+    try:
+        resource.setrlimit(resource.RLIMIT_STACK, (want if hard == resource.RLIM_INFINITY or hard >= want else hard, hard))
+    except (ValueError, OSError):
+        pass
+    try:
+        return ctx.run_model(vals, timeout=900)
+    finally:
+        try:
+            resource.setrlimit(resource.RLIMIT_STACK, (soft, hard))
+        except (ValueError, OSError):
+            pass
+
+
 def body(ctx, replay=None):
     pid = ctx.pid
     rel = (lambda a: pid.startswith("FMT") or pid == a)
     st = ctx.prepare(["FmtPGP_gen"], ["FmtPGP"], "FmtPGP.Run")
-    res = {"unit": "fmtpgp", "status": st, "evaluations": 0, "distinct": 0, "samples": [], "notes": []}
+    res = {"unit": "fmtpgp", "status": st, "evaluations": 0, "distinct": 0, "samples": [], "notes": [], "_distinct": set()}
     if not st["harness_ok"]:
+        res.pop("_distinct")
         return res
 
     def viol(aspect, what, detail, obj, found=True):
         # aspect may name several properties: an unreadable packet breaks C01 (the signature cannot verify), C03 (payload) and C05 (RFC reader)
         if any(rel(a) for a in aspect.split("+")):
             ctx.violation("%s:pgp:%s" % (pid, what), detail, obj, found)
+    robj = json.load(open(replay)) if replay else None
+    if robj is not None and "doc_hex" in robj:
+        clearsign_part(ctx, st, res, viol, robj)
+        res["distinct"] = len(res.pop("_distinct"))
+        return res
     if replay:
-        recs = json.load(open(replay)).get("cases", [])
+        recs = robj.get("cases", [])
     else:
         rc, out, err = ctx.drv(["fmtpgp"], timeout=300)
         if rc != 0:
             viol("C05", "driver-crash", "driver failed: " + err[-400:], {"stderr": err[-2000:]}, False)
+            res.pop("_distinct")
             return res
         recs = [json.loads(l) for l in out.splitlines() if l.strip()]
     H = [r for r in recs if r["kind"] == "hdr"]
     L = [r for r in recs if r["kind"] == "lit"]
-    distinct = set()
+    distinct = res["_distinct"]
     # ---------------- model-free oracle: an RFC 4880 reader must get the definite length / the payload back
     for r in H:
         b = bytes.fromhex(r["octets"])
@@ -109,10 +501,15 @@ def body(ctx, replay=None):
         if mism:
             viol("C05", "correspondence", "model and implementation disagree on %d case(s) (first: %s %s)" % (len(mism), mism[0][0], json.dumps(mism[0][1])[:200]),
                  {"cases": [m[1] for m in mism[:5]], "broken": "correspondence FmtPGP.Run"}, False)
-    res["distinct"] = len(distinct)
     res["samples"] = [H[5], H[len(H) // 2]] + [dict(L[3], packet=L[3]["packet"][:60])] if len(H) > 5 and len(L) > 3 else []
     res["mismatches"] = len(mism)
     res["cases"] = {"headers": len(H), "literals": len(L)}
+    # ---------------- cleartext signatures
+    if not replay:
+        clearsign_part(ctx, st, res, viol)
+        res["cases"].update({"cleartext_documents": res.get("cs_coverage", {}).get("documents"), "raw_streams": res.get("cs_coverage", {}).get("raw_streams")})
+        res["mismatches"] += res.get("cs_mismatches", 0)
+    res["distinct"] = len(res.pop("_distinct"))
     return res
 
 
@@ -120,11 +517,23 @@ def run(ctx, replay=None):
     ctx.unit = "fmtpgp"
     cb = body(ctx, replay)
     ctx.proof_verdict()
-    cov = ctx.proof_coverage(["srcgen translator (thresholds and octet expressions of serializeHeader incl. byte() wrap-around, shifts; guards of serializeLiteral)",
-                              "correspondence harness cmd/drv-fmtpgp (real serializeHeader / serializeLiteral through verif hooks)"],
-                             ["lib/pgptools:.serializeHeader", "lib/pgptools:.serializeLiteral"])
+    cov = ctx.proof_coverage(["srcgen translator (thresholds and octet expressions of serializeHeader incl. byte() wrap-around, shifts; guards of serializeLiteral; "
+                              "clearsign.go: line reader kind and limits of headClearSign / tailClearSign, loop bodies as step lists, marker test, terminators, error returns, "
+                              "pipe closing of the two goroutines; bufio.MaxScanTokenSize / defaultBufSize / Scanner's buffer-full test from GOROOT; whitespace, dash, LF tests and "
+                              "escape prefix of go-crypto's dashEscaper from the module cache)",
+                              "correspondence harness cmd/drv-fmtpgp (real serializeHeader / serializeLiteral, real ClearSign / DetachClearSign / MergeClearSign, real headClearSign / tailClearSign through verif hooks)",
+                              "hand-modelled from the Go standard library and go-crypto sources, tied by correspondence only: bufio.Scanner + ScanLines, bufio.Reader.ReadLine, io.Pipe blocking, dashEscaper.Write/Close"],
+                             ["lib/pgptools:.serializeHeader", "lib/pgptools:.serializeLiteral", "lib/pgptools:.ClearSign", "lib/pgptools:.DetachClearSign", "lib/pgptools:.tailClearSign",
+                              "lib/pgptools:.MergeClearSign", "lib/pgptools:.headClearSign"])
     cov.update({"evaluations": cb["evaluations"], "distinct_nontrivial": cb["distinct"],
                 "rule": "packet lengths at every RFC 4880 / implementation threshold +-3 (0, 191/192, 223/224, 255, 8383/8384, 16383, 65535, 2^24, 2^31, 2^32-1) and 400 random lengths x 4 packet tags; "
-                        "literal data packets whose body length sits on each threshold for file name lengths 0,1,11,255,256,300; oracle: RFC 4880 reader written in the check",
-                "samples": cb["samples"], "case_counts": cb.get("cases"), "model_mismatches": cb.get("mismatches"), "aspect_theorems": ASPECT_THEOREMS})
-    return ctx.finish("proof", cov, ["only the packet framing relic writes itself is modelled; one-pass signature and signature packets are written by ProtonMail/go-crypto"])
+                        "literal data packets whose body length sits on each threshold for file name lengths 0,1,11,255,256,300; oracle: RFC 4880 reader written in the check. "
+                        "Cleartext signatures: documents with one line of 1000..70000 bytes incl. 4094..4098, 8191..8193, 65533..65537 in three positions, dash lines on the limits, trailing blanks, "
+                        "CR LF, lone CR (also where a 4096-byte buffer ends), missing final newline, empty / newline-only documents, 40 random documents; SHA-256 and SHA-512; every emitted file is read "
+                        "by an RFC 4880 section 7 reader written in the check, its signature verified by a hand-written v4 / PKCS#1 computation, its text compared with the canonical document, "
+                        "and by gpgv where installed and within GnuPG's own line limit; raw streams through the real headClearSign / tailClearSign for the model comparison",
+                "samples": cb["samples"], "case_counts": cb.get("cases"), "model_mismatches": cb.get("mismatches"), "clearsign": cb.get("cs_coverage"), "aspect_theorems": ASPECT_THEOREMS})
+    return ctx.finish("proof", cov, ["only what relic writes itself is modelled at the byte level: the packet framing of the inline signer and the line splitting / re-joining of the cleartext path; "
+                                     "one-pass signature and signature packets and the ASCII armor are written by ProtonMail/go-crypto (the armor is an arbitrary byte string in the theorems)",
+                                     "documents with an emitted line of 65536 bytes or more are refused by relic with an explicit error (bufio.Scanner limit): proved and tested as the allowed refusal class",
+                                     "GnuPG cannot read cleartext lines of about 20000 characters and treats a line starting with NUL as empty: such outputs are judged by the reference computation only"])
